@@ -176,10 +176,11 @@ impl<'tcx> Cx<'tcx> {
         // generic args (types only) as strings
         let targs: Vec<String> = args.iter().filter_map(|a| a.as_type()).map(|t| js(&t.to_string())).collect();
         format!(
-            "{{\"k\":\"fn\",\"path\":{},\"full\":{},\"crate\":{},\"local\":{},\"targs\":[{}],\"res\":{}{}}}",
+            "{{\"k\":\"fn\",\"path\":{},\"full\":{},\"crate\":{},\"id\":{},\"local\":{},\"targs\":[{}],\"res\":{}{}}}",
             js(&plain),
             js(&full),
             js(&krate),
+            did.as_local().map(|l| l.local_def_index.as_u32() as i64).unwrap_or(-1),
             did.is_local(),
             targs.join(","),
             js(&resolved),
@@ -293,13 +294,13 @@ impl<'tcx> Cx<'tcx> {
                         )
                     }
                     AggregateKind::Closure(did, _) => {
-                        format!("\"agg\":\"closure\",\"def\":{}", js(&self.tcx.def_path_str(*did)))
+                        format!("\"agg\":\"closure\",\"def\":{},\"def_id\":{}", js(&self.tcx.def_path_str(*did)), did.as_local().map(|l| l.local_def_index.as_u32() as i64).unwrap_or(-1))
                     }
                     AggregateKind::Coroutine(did, _) => {
-                        format!("\"agg\":\"coroutine\",\"def\":{}", js(&self.tcx.def_path_str(*did)))
+                        format!("\"agg\":\"coroutine\",\"def\":{},\"def_id\":{}", js(&self.tcx.def_path_str(*did)), did.as_local().map(|l| l.local_def_index.as_u32() as i64).unwrap_or(-1))
                     }
                     AggregateKind::CoroutineClosure(did, _) => {
-                        format!("\"agg\":\"coroutine_closure\",\"def\":{}", js(&self.tcx.def_path_str(*did)))
+                        format!("\"agg\":\"coroutine_closure\",\"def\":{},\"def_id\":{}", js(&self.tcx.def_path_str(*did)), did.as_local().map(|l| l.local_def_index.as_u32() as i64).unwrap_or(-1))
                     }
                     _ => "\"agg\":\"other\"".to_string(),
                 };
@@ -319,7 +320,9 @@ impl<'tcx> Cx<'tcx> {
         };
         let _ = write!(
             out,
-            "{{\"def\":{},\"kind\":{},\"span\":{},\"coroutine\":{},\"cor_kind\":{},\"arg_count\":{},",
+            "{{\"id\":{},\"parent_id\":{},\"def\":{},\"kind\":{},\"span\":{},\"coroutine\":{},\"cor_kind\":{},\"arg_count\":{},",
+            def.local_def_index.as_u32(),
+            tcx.opt_local_parent(def).map(|p| p.local_def_index.as_u32() as i64).unwrap_or(-1),
             js(&tcx.def_path_str(def.to_def_id())),
             js(&format!("{:?}", kind)),
             js(&self.span(body.span)),
@@ -559,6 +562,15 @@ impl<'tcx> Cx<'tcx> {
                     .iter()
                     .map(|d| js(&tcx.def_path_str(*d)))
                     .collect();
+                let assoc: Vec<String> = tcx
+                    .associated_items(id.to_def_id())
+                    .in_definition_order()
+                    .filter(|it| it.is_type() && it.opt_name().is_some())
+                    .map(|it| {
+                        let ty = tcx.type_of(it.def_id).instantiate_identity().skip_norm_wip();
+                        format!("[{},{},{}]", js(&it.name().to_string()), js(&ty.to_string()), js(&self.adt_name(ty)))
+                    })
+                    .collect();
                 let preds: Vec<String> = tcx
                     .predicates_of(id.to_def_id())
                     .predicates
@@ -566,12 +578,13 @@ impl<'tcx> Cx<'tcx> {
                     .map(|(p, _)| js(&p.to_string()))
                     .collect();
                 parts.push(format!(
-                    "{{\"self\":{},\"self_adt\":{},\"trait\":{},\"trait_ref\":{},\"items\":[{}],\"preds\":[{}],\"span\":{}}}",
+                    "{{\"self\":{},\"self_adt\":{},\"trait\":{},\"trait_ref\":{},\"items\":[{}],\"assoc_types\":[{}],\"preds\":[{}],\"span\":{}}}",
                     js(&selfty.to_string()),
                     js(&self.adt_name(selfty)),
                     js(&tr.0),
                     js(&tr.1),
                     items.join(","),
+                    assoc.join(","),
                     preds.join(","),
                     js(&self.span(tcx.def_span(id)))
                 ));
